@@ -25,7 +25,7 @@ CHECKS = {
     "C07": {"level": E, "units": [go("TestC07Gen", 50000, 2000000, netns=False), go("TestC07Conc", 600, 20000, race=True, netns=False, confirm=False), go("TestC07Wire", 2000, 30000)]},
     "C05": {"level": E, "units": [go("TestC05", 1600, 30000)]},
     "C04": {"level": E, "agent_binary": True, "units": [go("TestC04", 4000, 120000), go("TestC04Restart", 192, 6000)]},
-    "C16": {"level": E, "gen_binary": True, "units": [go("TestC16Constants", 1, 1, netns=False, shards={"quick": 1, "thorough": 1}), go("TestC16Gen", 960, 6000, netns=False), go("TestC16", 8000, 120000)]},
+    "C16": {"level": E, "gen_binary": True, "units": [go("TestC16Constants", 1, 1, netns=False, shards={"quick": 1, "thorough": 1}), go("TestC16Gen", 960, 6000, netns=False), go("TestC16", 8000, 120000, fact=r"do(es)? not conform to the P4Info|violate the P4Info")]},
     "C15": {"level": F, "units": [go("TestC15Enum", 16, 16), go("TestC15Multi", 2400, 100000)]},
     "C20": {"level": E, "units": [{"kind": "py", "test": "c20", "argv": ["py/c20/test_c20.py"]}], "py_replay": ["py/c20/test_c20.py", "--replay"]},
     "C12": {"level": F, "units": [go("TestC12Enum", 16, 16), go("TestC12HB", 160, 5000), go("TestC12Setup", 240, 6000), go("TestC12Init", 96, 3000)]},
